@@ -113,6 +113,26 @@ fn run_slices(ctx: &Ctx) -> CheckResult {
         }
         st.sample(|| json!({"check": "slices", "variant": v.name, "lengths": format!("0..={}", 2 * v.size() + 4)}));
     }
+    // slice lengths that do not fit in 32 bits (default configuration only in the quick tier): a
+    // lazily mapped slab that starts with a valid binary form, then zeros
+    if ctx.tier != crate::ctx::Tier::Quick || ctx.config == "default" {
+        let mut slab = vec![0u8; (1usize << 32) + 512];
+        for va in ctx.api.variants() {
+            let v = va.v();
+            let mut base = ctx.sample_values(&format!("hugeslice/{}", v.name), 1, &proptest::collection::vec(any::<u8>(), v.size())).remove(0);
+            base[0] %= 49;
+            base[v.ck] %= 170;
+            slab[..v.size()].copy_from_slice(&base);
+            for l in [v.size(), 0, 1, 2 * v.size(), 2 * v.size() + 2] {
+                let piece = &slab[..(1usize << 32) + l];
+                if let Err(m) = case_slice_len(va, piece, strict, &st) {
+                    return Err(ctx.violation("slices-huge", format!("{} [slice of 2^32 + {} bytes starting with a valid binary form]", m, l), json!({"variant": v.name, "bytes": hex(&base), "l": l})));
+                }
+            }
+            slab[..v.size()].fill(0);
+            ctx.ev.borrow_mut().nontrivial_enumerated += 5;
+        }
+    }
     ctx.exhaustive("all slice lengths 0..=2N+4 (prefixes and suffixes of random bytes, of the text forms of a value, of a value twice / padded)");
     Ok(())
 }
@@ -157,6 +177,13 @@ pub fn replay(ctx: &Ctx, check: &str, case: &Value) -> Result<(), String> {
     match check {
         "binary" | "sweep" => case_binary(va, &bytes_of(case, "bytes")?, &st),
         "slices" => case_slice_len(va, &bytes_of(case, "bytes")?, ctx.api.caps().strict, &st),
+        "slices-huge" => {
+            let mut slab = vec![0u8; (1usize << 32) + 512];
+            let base = bytes_of(case, "bytes")?;
+            slab[..base.len()].copy_from_slice(&base);
+            let l = case.get("l").and_then(|x| x.as_u64()).unwrap_or(0) as usize;
+            case_slice_len(va, &slab[..(1usize << 32) + l.min(512)], ctx.api.caps().strict, &st)
+        }
         "generated" => {
             let d = DataSpec::from_json(case.get("data").ok_or("no data")?).ok_or("bad data")?;
             let mut g = va.generator();
